@@ -260,6 +260,27 @@ def apply_damage(job, rng, files, ecc, ents):
                     i = hoff + rng.randrange(hlen_)
                     ecc[i] = rnd_other(rng, {ecc[i], 0xFE, 0xFF, 0xFA})
         return note
+    if kind == 'late_mix':
+        # every block before index >= 10 intact, then one block destroyed beyond capacity, then a later block with one wrong byte:
+        # the loop's bookkeeping ("consecutive errors since the start") must have been reset by the intact blocks
+        hit = 0
+        for rel in targets:
+            e = ents[rel]
+            nb = len(e['blocks'])
+            if nb < 14:
+                continue
+            hb = rng.randrange(10, nb - 2)
+            lb = rng.randrange(hb + 1, nb)
+            off, l, k, es = e['blocks'][hb]
+            for x in range(off, off + l):
+                files[rel][x] = rnd_other(rng, {files[rel][x]})
+            off, l, k, es = e['blocks'][lb]
+            if l and es >= 2:
+                x = off + rng.randrange(l)
+                files[rel][x] = rnd_other(rng, {files[rel][x]})
+            hit += 1
+        note['files_hit'] = hit
+        return note
     if kind == 'parity_swap':
         # the stored parity of a block is replaced by the parity of a NEIGHBOURING message (one byte changed); the block and
         # its stored hash stay intact.  Block + parity then lies within the radius of another codeword: a tool that consults
@@ -684,6 +705,19 @@ def run_job(job):
                     sh, sp = track[j:j + hlen_], track[j + hlen_:j + hlen_ + es]
                     ib = data[off:off + l]
                     fct = {'off': off, 'len': l, 'k': k, 'in_hash_ok': ref_hash(job['hash'], ib) == sh}
+                    # against the pristine file and the pristine stored parity (same track position): is this block damaged, and is
+                    # block + stored parity within the errors-only capacity of the original codeword?
+                    o0 = orig.get(key)
+                    if o0 is not None and len(o0) == len(data) and key in ents0 and res.get('markers_ok'):
+                        ob0 = o0[off:off + l]
+                        t0_ = ents0[key]['tstart'] + j + hlen_
+                        sp0 = ecc0[t0_:t0_ + es]
+                        if len(ob0) == l and len(sp0) == len(sp) == es:
+                            d_ = sum(1 for x, y in zip(ib, ob0) if x != y) + sum(1 for x, y in zip(sp, sp0) if x != y)
+                            fct['dmg'] = ib != ob0
+                            fct['repairable'] = 2 * d_ <= es
+                            if ob is not None:
+                                fct['restored'] = ob[off:off + l] == ob0
                     if ob is not None:
                         o_ = ob[off:off + l]
                         fct['same'] = (o_ == ib)
